@@ -207,6 +207,13 @@ class GeminiClient:
             # If TOFU is enabled, verify the certificate
             if self.tofu_db:
                 cert = protocol.get_peer_certificate()
+                if cert is None:
+                    # A certificate we cannot read cannot be pinned or compared:
+                    # refuse instead of silently skipping the TOFU check
+                    raise ConnectionError(
+                        f"Could not read the certificate presented by "
+                        f"{parsed.hostname}:{parsed.port}; refusing the connection"
+                    )
                 if cert:
                     is_valid, message = self.tofu_db.verify(
                         parsed.hostname, parsed.port, cert
@@ -411,6 +418,13 @@ class GeminiClient:
             # If TOFU is enabled, verify the certificate
             if self.tofu_db:
                 cert = protocol.get_peer_certificate()
+                if cert is None:
+                    # A certificate we cannot read cannot be pinned or compared:
+                    # refuse instead of silently skipping the TOFU check
+                    raise ConnectionError(
+                        f"Could not read the certificate presented by "
+                        f"{parsed.hostname}:{parsed.port}; refusing the connection"
+                    )
                 if cert:
                     is_valid, message = self.tofu_db.verify(
                         parsed.hostname, parsed.port, cert
